@@ -1,10 +1,22 @@
-import Tahoe.Dir.TraverseLemmas
+import Tahoe.Dir.TraverseStats
 /-! C21 — deep traversal visits every reachable object exactly once (property theorems; helper lemmas in
     `Tahoe/Dir/TraverseLemmas.lean`, model in `Tahoe/Dir/Traverse.lean`).
 
     What the code does with objects that have no verify cap — LIT files, LIT directories, unknown nodes —
     is stated exactly: they are never entered into `found`, so they are reported once *per link* of a
-    visited directory (`literal_reported_per_link`); "exactly once" is about objects that have a verify cap. -/
+    visited directory (`literal_reported_per_link`); "exactly once" is about objects that have a verify cap.
+
+    Hypotheses used below, all of them facts about real directory graphs:
+    * `hroot`  the root is a directory;
+    * `hunk`   unknown nodes have no verify cap (`UnknownNode.get_verify_cap()` is `None`);
+    * `hnames` the names of one directory are distinct (dict keys);
+    * `hcons`  `Consistent g`: an object looks the same through its write cap and its read cap (same kind,
+               same names, children that are the same objects);
+    * `hU`     every verify cap of the graph lies in the finite list `U` (the graph is finite);
+    * `cost`, `hC`, `hcost`  a potential for directories without verify cap: `1 + Σ cost(literal-directory
+               children of n) ≤ cost n ≤ C`.  It exists exactly when literal directories do not contain
+               themselves (they are immutable, so they cannot); with no literal directory inside a directory,
+               `cost = 1` (`fuel_graph_size_suffices`). -/
 namespace Tahoe.C21
 open Tahoe.Dir.Traverse
 
@@ -97,124 +109,184 @@ example : let g : Graph Nat := fun n =>
       else ⟨.file, none, []⟩
     Event.addNode 3 ["a", "x"] ∈ (traverse g 0 10).1 ∧ resolve g 0 ["a", "x"] = some 3 := by decide
 
-/-- **Every child link of a visited directory is accounted for** (the closure half of "visits every
-    reachable object"): when the walker is told about directory `d` at `path`, then in the same step every
-    child `c` of `d` is either reported at `path ++ [name]` (unknown nodes; files), or pending on the stack at
-    that path (directories), or its verify cap is already in `found`.
+/-- **(a) The walk terminates, cycles or not.**  The measure
+    `Σ_{pending directories} cost + C · |{verify caps of U not yet in found}|` drops with every directory
+    visit (`step_measure`), so `cost root + C · |U|` visits are enough: the walk reaches `walker.finish()`. -/
+theorem terminates_on_cycles (cost : Nat → Nat) (C : Nat) (U : List V) (hC : ∀ n, cost n ≤ C)
+    (hU : ∀ n v, (g n).verifier = some v → v ∈ U)
+    (hcost : ∀ n, 1 + litCost g cost (g n).children ≤ cost n) (root fuel : Nat)
+    (hfuel : cost root + C * U.length ≤ fuel) : (traverse g root fuel).2 = true := by
+  have := run_completes g cost C U hC hU hcost fuel (init g root)
+    (Nat.le_trans (measure_init_le g cost C U root) hfuel)
+  exact this.1
 
-    Full statement kept for the record — `visits_all_reachable`: if the walk completes (`(traverse g root
-    fuel).2 = true`) and nodes with the same verify cap have the same kind and children with the same
-    names and verify caps, then every node reachable from the root is reported, or a node with the same verify
-    cap is.  What is missing is the induction along a path from the root using this closure property and the
-    invariant `Inv1` ("every verify cap in `found` is reported or pending", pending = ∅ at completion); the
-    correspondence run's monitor checks the full statement on every generated graph. -/
-theorem visits_all_reachable_partial (s s' : St V) (d : Nat) (path : Path) (rest : List (Nat × Path))
-    (hst : s.stack = (d, path) :: rest) (hs : step g s = some s') (name : String) (c : Nat)
-    (hc : (name, c) ∈ (g d).children) :
-    Event.addNode d path ∈ s'.out ∧
-    (Event.addNode c (path ++ [name]) ∈ s'.out ∨ (c, path ++ [name]) ∈ s'.stack ∨
-      ∃ v, (g c).verifier = some v ∧ v ∈ s'.found) := by
-  unfold step at hs
-  rw [hst] at hs
-  simp only [Option.some.injEq] at hs
-  subst hs
-  refine ⟨by simp, ?_⟩
-  -- generalized over the accumulator of the scan
-  have key : ∀ (kids : List (String × Nat)) (acc : Scan V), (name, c) ∈ kids →
-      let r := scan g path kids acc
-      (Event.addNode c (path ++ [name]) ∈ r.unknowns ∨ (c, path ++ [name]) ∈ r.files ∨
-        (c, path ++ [name]) ∈ r.dirs ∨ ∃ v, (g c).verifier = some v ∧ v ∈ r.found) := by
-    -- monotonicity of the accumulator along a scan
-    have mono : ∀ (kids : List (String × Nat)) (acc : Scan V),
-        (∀ e ∈ acc.unknowns, e ∈ (scan g path kids acc).unknowns) ∧
-        (∀ e ∈ acc.files, e ∈ (scan g path kids acc).files) ∧
-        (∀ e ∈ acc.dirs, e ∈ (scan g path kids acc).dirs) ∧
-        (∀ v ∈ acc.found, v ∈ (scan g path kids acc).found) := by
-      intro kids
-      induction kids with
-      | nil => intro acc; exact ⟨fun _ h => h, fun _ h => h, fun _ h => h, fun _ h => h⟩
-      | cons kc rest ih =>
-        intro acc
-        obtain ⟨nm, k⟩ := kc
-        simp only [scan]
-        split
-        · have := ih { acc with unknowns := acc.unknowns ++ [.addNode k (path ++ [nm])] }
-          exact ⟨fun e h => this.1 e (by simp [h]), this.2.1, this.2.2.1, this.2.2.2⟩
-        · split
-          · split
-            · exact ih acc
-            · split
-              · rename_i v _ _ _
-                have := ih { found := v :: acc.found, unknowns := acc.unknowns, files := acc.files,
-                             dirs := acc.dirs ++ [(k, path ++ [nm])] }
-                exact ⟨this.1, this.2.1, fun e h => this.2.2.1 e (by simp [h]), fun x h => this.2.2.2 x (by simp [h])⟩
-              · rename_i v _ _ _
-                have := ih { found := v :: acc.found, unknowns := acc.unknowns,
-                             files := acc.files ++ [(k, path ++ [nm])], dirs := acc.dirs }
-                exact ⟨this.1, fun e h => this.2.1 e (by simp [h]), this.2.2.1, fun x h => this.2.2.2 x (by simp [h])⟩
-          · split
-            · have := ih { acc with dirs := acc.dirs ++ [(k, path ++ [nm])] }
-              exact ⟨this.1, this.2.1, fun e h => this.2.2.1 e (by simp [h]), this.2.2.2⟩
-            · have := ih { acc with files := acc.files ++ [(k, path ++ [nm])] }
-              exact ⟨this.1, fun e h => this.2.1 e (by simp [h]), this.2.2.1, this.2.2.2⟩
-    intro kids
-    induction kids with
-    | nil => intro acc h; cases h
-    | cons kc rest ih =>
-      intro acc hmem
-      simp only [List.mem_cons] at hmem
-      rcases hmem with hm | hm
-      · cases hm
-        simp only [scan]
-        split
-        · left
-          exact (mono rest _).1 _ (by simp)
-        · split
-          · rename_i v hv
-            split
-            · rename_i hin
-              right; right; right
-              exact ⟨v, hv, (mono rest acc).2.2.2 v hin⟩
-            · split
-              · right; right; left
-                exact (mono rest _).2.2.1 _ (by simp)
-              · right; left
-                exact (mono rest _).2.1 _ (by simp)
-          · split
-            · right; right; left
-              exact (mono rest _).2.2.1 _ (by simp)
-            · right; left
-              exact (mono rest _).2.1 _ (by simp)
-      · obtain ⟨nm, k⟩ := kc
-        simp only [scan]
-        split
-        · exact ih _ hm
-        · split
-          · split
-            · exact ih _ hm
-            · split <;> exact ih _ hm
-          · split <;> exact ih _ hm
-  have := key (g d).children ⟨s.found, [], [], []⟩ hc
-  simp only [] at this
-  rcases this with h | h | h | h
-  · left; simp [h]
-  · left
-    simp only [List.mem_append, List.mem_map]
-    right; exact ⟨_, h, rfl⟩
-  · right; left; simp [h]
-  · right; right; exact h
+/-- … and when no directory has a literal directory as a child, fuel = number of verify caps + 1 (at most
+    the size of the graph) suffices, whatever the cycles, shared subdirectories and repeated literal files. -/
+theorem fuel_graph_size_suffices (U : List V) (hU : ∀ n v, (g n).verifier = some v → v ∈ U)
+    (hlit : ∀ n name c, (name, c) ∈ (g n).children → ¬ ((g c).kind = .dir ∧ (g c).verifier = none))
+    (root fuel : Nat) (hfuel : U.length + 1 ≤ fuel) : (traverse g root fuel).2 = true := by
+  apply terminates_on_cycles g (fun _ => 1) 1 U (fun _ => Nat.le_refl 1) hU
+  · intro n
+    rw [litCost_one_zero g (g n).children (hlit n)]
+    exact Nat.le_refl 1
+  · omega
 
-/-- Literal files, literal directories and unknown nodes are never entered into `found`: a literal child of
-    a visited directory is reported (file) or visited (directory) for this very link, whatever was seen
-    before — once per link, as the comment in the code says. -/
-theorem literal_reported_per_link (s s' : St V) (d : Nat) (path : Path) (rest : List (Nat × Path))
-    (hst : s.stack = (d, path) :: rest) (hs : step g s = some s') (name : String) (c : Nat)
-    (hc : (name, c) ∈ (g d).children) (hlit : (g c).verifier = none) :
-    Event.addNode c (path ++ [name]) ∈ s'.out ∨ (c, path ++ [name]) ∈ s'.stack := by
-  rcases (visits_all_reachable_partial g s s' d path rest hst hs name c hc).2 with h | h | ⟨v, hv, _⟩
-  · left; exact h
-  · right; exact h
-  · rw [hlit] at hv; cases hv
+/-- **(b) Every reachable node is visited.**  When the walk has finished, every node reachable from the root
+    by links through directories has been handed to the walker — itself, or (for an object with a verify cap
+    that is linked through several caps) a node that is the same object.  Proof: induction along the path,
+    from the invariant "every child link of a reported directory is reported, pending, or in `found`" and
+    "every verify cap in `found` is reported or pending", with nothing pending at the end. -/
+theorem visits_all_reachable (hcons : Consistent g) (root fuel : Nat) (hroot : (g root).kind = .dir)
+    (hdone : (traverse g root fuel).2 = true) (n : Nat) (hr : Reach g root n) :
+    ∃ m p, Event.addNode m p ∈ (traverse g root fuel).1 ∧ Same g m n :=
+  visits_of_inv g hcons root _ (walkInv_run g root hroot fuel) (run_done_stack g fuel _ hdone) n hr
+
+/-- … and nothing else is: every node handed to the walker is reachable from the root. -/
+theorem visits_only_reachable (root fuel : Nat) (hroot : (g root).kind = .dir) (m : Nat) (p : Path)
+    (h : Event.addNode m p ∈ (traverse g root fuel).1) : Reach g root m :=
+  (walkInv_run g root hroot fuel).reachOut m p h
+
+/-- **(c) Each object with a verify cap is visited exactly once**: if a reachable node has verify cap `v`,
+    then exactly one `add_node` call is for a node with verify cap `v`. -/
+theorem visits_each_object_exactly_once (hcons : Consistent g)
+    (hunk : ∀ n, (g n).kind = .unknown → (g n).verifier = none) (root fuel : Nat)
+    (hroot : (g root).kind = .dir) (hdone : (traverse g root fuel).2 = true) (n : Nat) (v : V)
+    (hr : Reach g root n) (hv : (g n).verifier = some v) :
+    (reportedV g (traverse g root fuel).1).count v = 1 := by
+  have hnd := at_most_once_per_verifier g hunk root fuel
+  have hmem : v ∈ reportedV g (traverse g root fuel).1 := by
+    obtain ⟨m, p, hm, hs⟩ := visits_all_reachable g hcons root fuel hroot hdone n hr
+    have hmv : (g m).verifier = some v := by
+      rcases hs with rfl | ⟨w, h1, h2⟩
+      · exact hv
+      · rw [hv] at h2; cases h2; exact h1
+    exact List.mem_filterMap.mpr ⟨_, hm, hmv⟩
+  rw [hnd.count]
+  simp [hmem]
+
+/-- **(d) The statistics count each object once.**  The object counters of deep-stats are folds over the
+    `add_node` calls (`deepStats`).  For any duplicate-free enumeration `objs` of the verify caps of the
+    reachable objects: the reported verify caps are a permutation of `objs`, so the counters of verified
+    directories and files are exactly the numbers of such objects — however many links, caps or cycles lead to
+    them — and no unknown node is counted as a verified object. -/
+theorem stats_count_each_object_once (hcons : Consistent g)
+    (hunk : ∀ n, (g n).kind = .unknown → (g n).verifier = none) (root fuel : Nat)
+    (hroot : (g root).kind = .dir) (hdone : (traverse g root fuel).2 = true)
+    (objs : List V) (hobjs : objs.Nodup)
+    (henum : ∀ v, v ∈ objs ↔ ∃ n, Reach g root n ∧ (g n).verifier = some v)
+    (kindV : V → Kind) (hkindV : ∀ n v, (g n).verifier = some v → kindV v = (g n).kind) :
+    (reportedV g (traverse g root fuel).1).Perm objs ∧
+    (deepStats g (traverse g root fuel).1).verifiedDirs = objs.countP (fun v => kindV v == .dir) ∧
+    (deepStats g (traverse g root fuel).1).verifiedFiles = objs.countP (fun v => kindV v == .file) := by
+  have hperm : (reportedV g (traverse g root fuel).1).Perm objs := by
+    rw [List.perm_ext_iff_of_nodup (at_most_once_per_verifier g hunk root fuel) hobjs]
+    intro v
+    constructor
+    · intro hv
+      obtain ⟨e, he, hev⟩ := List.mem_filterMap.mp hv
+      cases e with
+      | enterDir n => simp at hev
+      | addNode m p =>
+        exact (henum v).mpr ⟨m, visits_only_reachable g root fuel hroot m p he, hev⟩
+    · intro hv
+      obtain ⟨n, hr, hnv⟩ := (henum v).mp hv
+      obtain ⟨m, p, hm, hs⟩ := visits_all_reachable g hcons root fuel hroot hdone n hr
+      have hmv : (g m).verifier = some v := by
+        rcases hs with rfl | ⟨w, h1, h2⟩
+        · exact hnv
+        · rw [hnv] at h2; cases h2; exact h1
+      exact List.mem_filterMap.mpr ⟨_, hm, hmv⟩
+  refine ⟨hperm, ?_, ?_⟩
+  · simp only [deepStats]
+    rw [countNodes_verified g kindV hkindV]
+    exact hperm.countP_eq _
+  · simp only [deepStats]
+    rw [countNodes_verified g kindV hkindV]
+    exact hperm.countP_eq _
+
+/-- **(d, continued) Literal files, literal directories and unknown nodes are counted once per link**, as the
+    code does (they are never entered into `found`).  When the walk has finished:
+    every link of a reported directory to a node without verify cap has its own `add_node` call, at the path of
+    that link; every `add_node` call for a node without verify cap (other than the root) comes from such a
+    link; and no two `add_node` calls have the same path — so these calls correspond one-to-one to the links. -/
+theorem literal_reported_per_link (hnames : ∀ n, ((g n).children.map (·.1)).Nodup) (root fuel : Nat)
+    (hroot : (g root).kind = .dir) (hdone : (traverse g root fuel).2 = true) :
+    (∀ m p name c, Event.addNode m p ∈ (traverse g root fuel).1 → (g m).kind = .dir →
+        (name, c) ∈ (g m).children → (g c).verifier = none →
+        Event.addNode c (p ++ [name]) ∈ (traverse g root fuel).1) ∧
+    (∀ c q, Event.addNode c q ∈ (traverse g root fuel).1 →
+        (q = [] ∧ c = root) ∨ ∃ m p name, q = p ++ [name] ∧ Event.addNode m p ∈ (traverse g root fuel).1 ∧
+          (g m).kind = .dir ∧ (name, c) ∈ (g m).children) ∧
+    ((traverse g root fuel).1.filterMap evPath).Nodup := by
+  have inv := walkInv_run g root hroot fuel
+  have hstack := run_done_stack g fuel _ hdone
+  refine ⟨?_, ?_, ?_⟩
+  · intro m p name c hm hk hc hlit
+    rcases inv.closure m p hm hk name c hc with h1 | h1 | ⟨v, hv, _⟩
+    · exact h1
+    · rw [hstack] at h1; cases h1
+    · rw [hlit] at hv; cases hv
+  · intro c q hm
+    exact inv.provOut c q hm
+  · have := inv.pathsNodup hnames
+    unfold allPaths at this
+    rw [hstack] at this
+    have h2 : (traverse g root fuel).1 = (run g fuel (init g root)).1.out := rfl
+    rw [h2]
+    simpa using this
+
+/-- the walk on `demo`: every object once, the literal file once per link, finished after 4 directory visits;
+    and `demo` meets every hypothesis of the theorems above (with `U` = its five verify caps, `cost = 1`) -/
+example :
+    traverse demo 0 6 =
+      ([.addNode 0 [], .enterDir 0, .addNode 5 ["lit"],
+        .addNode 1 ["a"], .enterDir 1,
+        .addNode 3 ["a", "x"], .enterDir 3, .addNode 4 ["a", "x", "f"], .addNode 5 ["a", "x", "l1"],
+        .addNode 5 ["a", "x", "l2"],
+        .addNode 2 ["b"], .enterDir 2], true) ∧
+    deepStats demo (traverse demo 0 6).1 = ⟨4, 0, 1, 3, 0⟩ ∧
+    (demo 0).kind = .dir ∧
+    (∀ n, (demo n).kind = .unknown → (demo n).verifier = none) ∧
+    (∀ n, ((demo n).children.map (·.1)).Nodup) ∧
+    Consistent demo ∧
+    (∀ n v, (demo n).verifier = some v → v ∈ [10, 11, 12, 13, 14]) ∧
+    (∀ n name c, (name, c) ∈ (demo n).children → ¬ ((demo c).kind = .dir ∧ (demo c).verifier = none)) := by
+  have small : ∀ (P : Nat → Prop), (∀ n, n < 6 → P n) → (∀ n, 6 ≤ n → P n) → ∀ n, P n := by
+    intro P h1 h2 n
+    rcases Nat.lt_or_ge n 6 with h | h
+    · exact h1 n h
+    · exact h2 n h
+  refine ⟨by decide, by decide, rfl, ?_, ?_, ?_, ?_, ?_⟩
+  · apply small
+    · decide
+    · intro n hn; rw [demo_big n hn]; intro h; cases h
+  · apply small
+    · decide
+    · intro n hn; rw [demo_big n hn]; simp
+  · intro a b v ha hb
+    have hab : a = b := by
+      have ha6 : a < 6 := by
+        rcases Nat.lt_or_ge a 6 with h | h
+        · exact h
+        · rw [demo_big a h] at ha; cases ha
+      have hb6 : b < 6 := by
+        rcases Nat.lt_or_ge b 6 with h | h
+        · exact h
+        · rw [demo_big b h] at hb; cases hb
+      have key : ∀ a, a < 6 → ∀ b, b < 6 → (demo a).verifier.isSome = true →
+          (demo a).verifier = (demo b).verifier → a = b := by decide
+      exact key a ha6 b hb6 (by simp [ha]) (by rw [ha, hb])
+    subst hab
+    exact ⟨rfl, fun name c hc => ⟨c, hc, Or.inl rfl⟩⟩
+  · apply small
+    · decide
+    · intro n hn v h; rw [demo_big n hn] at h; cases h
+  · apply small
+    · have key : ∀ n, n < 6 → ∀ kc ∈ (demo n).children,
+          ¬ ((demo kc.2).kind = .dir ∧ (demo kc.2).verifier = none) := by decide
+      intro n hn name c hc
+      exact key n hn (name, c) hc
+    · intro n hn name c hc; rw [demo_big n hn] at hc; cases hc
 
 end
 end Tahoe.C21
